@@ -62,8 +62,20 @@ def run(ctx) -> None:
             before = json.dumps(apijson.canon(api.to_dict()), sort_keys=True, default=str)
             out = implrun.tmp_out("sb")
             r = implrun.generate(impl, api, safe, out)
-            shutil.rmtree(out, ignore_errors=True)
             after = json.dumps(apijson.canon(api.to_dict()), sort_keys=True, default=str)
+            r2 = None
+            if ctx.prop == "C16" and r[0] == "ok":
+                # C16: a second run into the same, now populated, directory (fresh generator, as the CLI does)
+                api2, _ = build(impl, seed)
+                r2 = implrun.generate(impl, api2, safe, out)
+                if r2[0] != "ok":
+                    ctx.oracle_failure("C16", f"second run into the same directory raised {r2[1]} at {r2[2]}", {"stage": "S-B", "case": label, "safe": safe})
+                elif r2[3] != r[3]:
+                    bad = [p for p in sorted(set(r[3]) | set(r2[3])) if r[3].get(p) != r2[3].get(p)]
+                    ctx.oracle_failure("C16", f"a second run into the same output directory changed {bad[:3]}",
+                                       {"stage": "S-B", "case": label, "safe": safe, "paths": bad[:5],
+                                        "first": {p: r[3].get(p) for p in bad[:2]}, "second": {p: r2[3].get(p) for p in bad[:2]}})
+            shutil.rmtree(out, ignore_errors=True)
             for k, v in feats.items():
                 rep.bump("features", k, v)
             rep.evaluations += 1
@@ -73,7 +85,7 @@ def run(ctx) -> None:
             rep.sample({"case": label, "safe": safe, "files": sorted(r[3])[:6] if r[0] == "ok" else r[1:],
                         "features": dict(list(feats.items())[:8])}, limit=3)
             oracles_gen.check(ctx, impl, label, safe, api, j, r, before, after)
-            todo.append((label, safe, j, r))
+            todo.append((label, safe, j, r, r2))
             pair[safe] = r
         oracles_gen.check_flag_pair(ctx, label, pair[False], pair[True])
     if not ctx.driver_ok:
@@ -81,8 +93,23 @@ def run(ctx) -> None:
     CH = 40
     for i in range(0, len(todo), CH):
         chunk = todo[i:i + CH]
-        outs = driver_batch([{"op": "gen", "api": j, "safe": safe} for _, safe, j, _ in chunk])
-        for (label, safe, j, r), m in zip(chunk, outs):
+        outs = driver_batch([{"op": "gen", "api": j, "safe": safe} for _, safe, j, _, _ in chunk])
+        second = [(k, c) for k, c in enumerate(chunk) if c[4] is not None and c[4][0] == "ok" and c[3][0] == "ok"]
+        outs2 = driver_batch([{"op": "gen", "api": c[2], "safe": c[1], "preexisting": sorted(c[3][3])} for _, c in second])
+        for (k, c), m2 in zip(second, outs2):
+            # the model's write log applied on top of the first run's files must give the implementation's second tree
+            rep.disagreements_checked += 1
+            if not m2.get("ok"):
+                ctx.disagree("S-B/second-run-outcome", {"case": c[0], "safe": c[1]}, m2.get("err"), "ok")
+                continue
+            tree = dict(c[3][3])
+            for op in m2["ops"]:
+                tree[op["path"]] = op["text"] if op["mode"] == "w" else tree.get(op["path"], "") + op["text"]
+            if tree != c[4][3]:
+                bad = [p for p in sorted(set(tree) | set(c[4][3])) if tree.get(p) != c[4][3].get(p)]
+                ctx.disagree("S-B/second-run-files", {"case": c[0], "safe": c[1], "paths": bad[:4]},
+                             {p: tree.get(p) for p in bad[:1]}, {p: c[4][3].get(p) for p in bad[:1]})
+        for (label, safe, j, r, _r2), m in zip(chunk, outs):
             rep.disagreements_checked += 1
             inp = {"case": label, "safe": safe}
             if r[0] != "ok" or not m.get("ok"):
